@@ -322,10 +322,11 @@ def _drops_only_none(test, names):
 def r5(ctx):
     f = ctx.fn(SEQUTILS, 'get_consensus_dictionaries')
     # the window handed to the per-read extraction: 2nd and 3rd argument of the read_to_consensus_dict calls
-    rcalls = [c for c in walk_no_nested(f) if isinstance(c, ast.Call) and last_name(dotted(c.func) or '') == 'read_to_consensus_dict' and len(c.args) >= 3]
-    if not rcalls or any(not (isinstance(c.args[1], ast.Name) and isinstance(c.args[2], ast.Name)) for c in rcalls):
+    from ..util import arg as _arg
+    rcalls = [c for c in walk_no_nested(f) if isinstance(c, ast.Call) and last_name(dotted(c.func) or '') == 'read_to_consensus_dict' and _arg(c, 1, 'start') is not None and _arg(c, 2, 'end') is not None]
+    if not rcalls or any(not (isinstance(_arg(c, 1, 'start'), ast.Name) and isinstance(_arg(c, 2, 'end'), ast.Name)) for c in rcalls):
         raise AnalysisError('get_consensus_dictionaries: the window arguments of read_to_consensus_dict are not locals')
-    wins = {(c.args[1].id, c.args[2].id) for c in rcalls}
+    wins = {(_arg(c, 1, 'start').id, _arg(c, 2, 'end').id) for c in rcalls}
     if len(wins) != 1:
         ctx.emit('C14-R5', False, SEQUTILS, rcalls[0], f'the two mates are extracted with different windows {sorted(wins)}', key='dove-window:same-window')
     sv, evn = sorted(wins)[0]
